@@ -1,13 +1,13 @@
 #!/bin/sh
 # tools/try_seed_copy.sh <abs patch.diff> <Cxx> [check args...]: run a check against a scratch worktree of /repo's HEAD with the seeded change applied
-# (/repo itself is not touched: bumpver is imported from the scratch tree through BUMPVER_SRC / BUMPVER_REPO). The evidence file of the run is discarded.
+# (/repo itself is not touched: bumpver is imported from the scratch tree through BUMPVER_SRC / BUMPVER_REPO). The evidence file of the run goes to a scratch directory and is discarded.
 patch="$1"; prop="$2"; shift 2
 wt=$(mktemp -d /tmp/seedcopy.XXXXXX); rmdir "$wt"
+evd=$(mktemp -d /tmp/seedev.XXXXXX)
 git -C /repo worktree add -q --detach "$wt" HEAD || exit 3
-( cd "$wt" && git apply "$patch" ) || { echo "patch does not apply"; git -C /repo worktree remove --force "$wt"; exit 3; }
-cp /verif/evidence/$prop.json /tmp/evidence.$prop.$$ 2>/dev/null
-BUMPVER_SRC="$wt/src" BUMPVER_REPO="$wt" /verif/check "$prop" "$@"; rc=$?
-[ -f /tmp/evidence.$prop.$$ ] && mv /tmp/evidence.$prop.$$ /verif/evidence/$prop.json
+( cd "$wt" && git apply "$patch" ) || { echo "patch does not apply"; git -C /repo worktree remove --force "$wt"; rm -rf "$evd"; exit 3; }
+VERIF_EVIDENCE_DIR="$evd" BUMPVER_SRC="$wt/src" BUMPVER_REPO="$wt" /verif/check "$prop" "$@"; rc=$?
 git -C /repo worktree remove --force "$wt"
+rm -rf "$evd"
 echo "exit=$rc"
 exit $rc
